@@ -189,17 +189,16 @@ Definition handle_expire (argv : list string) : prog reply :=
 Definition handle_expireat (argv : list string) : prog reply :=
   handle_expire_gen (fun _ n => if String.eqb (lower (arg argv 0)) "pexpireat" then n else n * 1000) argv.
 
-(** int64 wrap-around of the counters. *)
-Definition wrap64 (z : Z) : Z := (z + 2 ^ 63) mod 2 ^ 64 - 2 ^ 63.
-
-(** INCR, DECR, INCRBY, DECRBY: [delta] is what is added; [init] the value stored for a missing key. *)
+(** INCR, DECR, INCRBY, DECRBY: [delta] is what is added (exact); a result outside int64 is refused. *)
 Definition counter_step (key : string) (delta : Z) : prog reply :=
   GetValues [key] (fun vals =>
-  let store (n : Z) := SetValues [(key, VScal (SStr (show_Z n)))] (fun ok => if ok then Ret (RInt n) else Ret RErr) in
+  let store (n : Z) :=
+    if in_int64 n then SetValues [(key, VScal (SStr (show_Z n)))] (fun ok => if ok then Ret (RInt n) else Ret RErr)
+    else Ret RErr in
   match vals key with
-  | None => store (wrap64 delta)
-  | Some (VScal (SStr s)) => match parse_int s with Some c => store (wrap64 (c + delta)) | None => Ret RErr end
-  | Some (VScal (SInt c)) => store (wrap64 (c + delta))
+  | None => store delta
+  | Some (VScal (SStr s)) => match parse_int s with Some c => store (c + delta) | None => Ret RErr end
+  | Some (VScal (SInt c)) => store (c + delta)
   | Some _ => Ret RErr
   end).
 
@@ -212,7 +211,7 @@ Definition handle_incrby (argv : list string) : prog reply :=
   match parse_int (arg argv 2) with None => Ret RErr | Some n => counter_step (arg argv 1) n end.
 Definition handle_decrby (argv : list string) : prog reply :=
   if negb (length argv =? 3)%nat then Ret RErr else
-  match parse_int (arg argv 2) with None => Ret RErr | Some n => counter_step (arg argv 1) (wrap64 (- n)) end.
+  match parse_int (arg argv 2) with None => Ret RErr | Some n => counter_step (arg argv 1) (- n) end.
 
 Definition handle_incrbyfloat (argv : list string) : prog reply :=
   if negb (length argv =? 3)%nat then Ret RErr else
